@@ -653,20 +653,32 @@ func runAll(r *Run, specs []HarnessSpec, verifDir, only string) int {
 			}
 			tmp := filepath.Join(verifDir, "replays", fmt.Sprintf(".unstable-%s-%d-%d.json", id, os.Getpid(), i))
 			enum.WriteJSON(tmp, v)
-			ok := true
-			for rep := 0; rep < 2 && ok; rep++ {
+			// two fresh runs that both fail: history-dependent but deterministic. Otherwise up to eight runs: a failure with
+			// the same key in at least three of them is an intermittent failure of the code under test (the harness owns
+			// every source of nondeterminism it uses; on code where the property holds no run fails at all)
+			hits, runs := 0, 0
+			for rep := 0; rep < 8; rep++ {
 				cmd := exec.Command(self, "-tier", r.Tier, "-verif", verifDir, "-replay", tmp, id)
 				out, _ := cmd.CombinedOutput()
-				if cmd.ProcessState == nil || cmd.ProcessState.ExitCode() != 1 || !strings.Contains(string(out), "key="+v.Fails[0].Key+" ") {
-					ok = false
+				runs++
+				if cmd.ProcessState != nil && cmd.ProcessState.ExitCode() == 1 && strings.Contains(string(out), "key="+v.Fails[0].Key+" ") {
+					hits++
+				}
+				if (rep == 1 && hits == 2) || (rep >= 3 && hits == 0) {
+					break
 				}
 			}
 			os.Remove(tmp)
-			if ok {
+			switch {
+			case hits == runs:
 				v.Fails[0].Msg += " [history-dependent: reproduces in a fresh process, not when re-executed in the exploring process]"
 				kept = append(kept, v)
 				stable++
-			} else {
+			case hits >= 3:
+				v.Fails[0].Msg += fmt.Sprintf(" [intermittent: the same case fails in %d of %d fresh processes]", hits, runs)
+				kept = append(kept, v)
+				stable++
+			default:
 				dropped++
 			}
 		}
